@@ -390,7 +390,12 @@ func (p principal) marshal(v int) ([]byte, error) {
 	if v == 1 && isNativeEndianLittle() {
 		endian = binary.LittleEndian
 	}
-	endian.PutUint16(b[0:], uint16(p.NumComponents))
+	nc := p.NumComponents
+	if v == 1 {
+		//In version 1 the number of components includes the realm (parsePrincipal subtracts it again).
+		nc++
+	}
+	endian.PutUint16(b[0:], uint16(nc))
 	realm, err := marshalString(p.Realm, v)
 	if err != nil {
 		return b, err
